@@ -58,6 +58,12 @@ func histPool() []poolCall {
 		{fn: FnApply, a: d1, patch: failTest},
 		{fn: FnApply, a: d1, patch: rootNull},
 		{fn: FnApply, a: `{"a":`, patch: ops},
+		// a call that fails after an earlier operation replaced the root, and calls whose outcome
+		// would change if anything of that discarded document were still around
+		{fn: FnApply, a: d1, patch: `[{"op":"replace","path":"","value":{"secret":"s3cr3t","a":[9],"name":7}},{"op":"test","path":"/nope","value":1}]`},
+		{fn: FnApply, a: d0, patch: `[{"op":"copy","from":"/b","path":"/leak"},{"op":"copy","from":"/secret","path":"/leak2"}]`},
+		{fn: FnApply, a: d0, patch: `[{"op":"test","path":"/name","value":"x"},{"op":"test","path":"/a/1","value":2}]`},
+		{fn: FnApply, a: `{"other":1}`, patch: `[{"op":"remove","path":"/name"}]`},
 		{fn: FnAccessors, patch: testWs},
 		{fn: FnDecodePatch, a: bad},
 		{fn: FnDecodePatch, a: `[{"op":"add","path":"/a","value":1e400},{"op":"remove","path":null}]`},
